@@ -34,17 +34,21 @@ package main
 //	    root never falls back to another directory: every import fails.
 
 import (
+	"flag"
 	"fmt"
+	"io"
 	"os"
 	"path/filepath"
 	"strconv"
 	"strings"
+	"sync"
 	"time"
 
 	"github.com/krotik/ecal/cli/tool"
 	"github.com/krotik/ecal/interpreter"
 	"github.com/krotik/ecal/parser"
 	"github.com/krotik/ecal/util"
+	"github.com/krotik/ecal/verifhook"
 )
 
 var c17Base string // absolute directory B of this process's tree
@@ -66,6 +70,10 @@ var c17Files = []string{
 	"nm",     // grandparent
 	"abs/nm", // somewhere else, addressed absolutely
 	"abs/root/nm",
+	"top/r t/nm", // directories with odd names, used as roots
+	"top/r.t/nm",
+	"top/..r/nm",
+	"top/ r/nm",
 }
 
 // module files: position and the path their import statement names
@@ -91,6 +99,11 @@ func c17FilesWithModules() string {
 
 var c17Alphabet = []string{"nm", ".", "..", "", "/nm", "a.b", "a b", "..x", "rootX", "root"}
 
+// elements that become ".." (or another directory) under a rewrite AFTER the containment test: environment
+// expansion ($u is unset), percent decoding, home expansion (HOME = B/abs), backslash conversion,
+// dot / blank trimming, NUL truncation. For Clean and Rel they are ordinary names.
+var c17Tricks = []string{"$u..", "${u}..", "%2e%2e", "..%2f", "~", "..\\", "...", ".. ", " ..", "..\x00"}
+
 type c17Root struct{ cwd, root, pos string }
 
 // root spellings with the position (relative to B) they denote for that working directory
@@ -113,6 +126,74 @@ var c17Roots = []c17Root{
 	{"top/root", "../rootX/../root", "top/root"},
 	{"top/root/sub", "..", "top/root"},
 	{"top", "@", ""},
+	{"top", "r t", "top/r t"}, // odd names as roots
+	{"top", "r.t", "top/r.t"},
+	{"top", "..r", "top/..r"},
+	{"top", " r", "top/ r"},
+	{"top", "@/top/r t/", "top/r t"},
+	{"top/r t", "../r t/.", "top/r t"},
+	{"top", "/", "^/"}, // roots above the tree: every file of the tree is inside
+	{"top", "@/..", "^1"},
+	{"top", "../..", "^1"},
+	{"top", "../../..", "^2"},
+	{"top", "@/../..", "^2"},
+}
+
+var (
+	c17Hook   bool // the tree under test has the c17.open instrumentation point
+	c17EvMu   sync.Mutex
+	c17Events []string
+	c17Par1   string // parent of B
+	c17Par2   string // grandparent of B
+)
+
+func c17TakeEvents() []string {
+	c17EvMu.Lock()
+	defer c17EvMu.Unlock()
+	ev := c17Events
+	c17Events = nil
+	return ev
+}
+
+// c17Canon names an opened path independently of where the scratch directory lies: every occurrence of
+// the path of B / parent of B / grandparent of B (without the leading slash) becomes @B / @1 / @2, a
+// remaining name of B becomes @: (the model does the same with its own B = /^2/^1/^B).
+func c17Canon(q string) string {
+	q = strings.ReplaceAll(q, c17Base[1:], "@B")
+	q = strings.ReplaceAll(q, c17Par1[1:], "@1")
+	q = strings.ReplaceAll(q, c17Par2[1:], "@2")
+	return strings.ReplaceAll(q, filepath.Base(c17Base), "@:")
+}
+
+// c17Obs renders the observation of one path: which strings reached the open, and what came back.
+func c17Obs(withEvents bool, result string) string {
+	return c17ObsEv(c17TakeEvents(), withEvents, result)
+}
+
+// c17Short: lines that carry many paths print a 24 bit FNV-1a digest of each opened string instead of the string
+var c17Short bool
+
+func c17ObsEv(ev []string, withEvents bool, result string) string {
+	if !c17Hook || !withEvents {
+		return "?=" + result
+	}
+	if len(ev) == 0 {
+		return "-=" + result
+	}
+	for i := range ev {
+		ev[i] = c17Canon(ev[i])
+	}
+	if c17Short {
+		h := uint32(2166136261)
+		for _, b := range []byte(strings.Join(ev, "|")) {
+			h = (h ^ uint32(b)) * 16777619
+		}
+		return fmt.Sprintf("%06x=%s", h&0xffffff, result)
+	}
+	for i := range ev {
+		ev[i] = hx(ev[i])
+	}
+	return strings.Join(ev, "|") + "=" + result
 }
 
 func c17Setup() {
@@ -122,6 +203,13 @@ func c17Setup() {
 	check(err)
 	c17Base, err = os.MkdirTemp(wd, "c17-tree-")
 	check(err)
+	c17Par1 = filepath.Dir(c17Base)
+	c17Par2 = filepath.Dir(c17Par1)
+	if c17Par2 == "/" || c17Par1 == "/" {
+		check(fmt.Errorf("the scratch directory %s is not deep enough", c17Base))
+	}
+	os.Unsetenv("u")
+	os.Setenv("HOME", filepath.Join(c17Base, "abs"))
 	for _, f := range c17Files {
 		p := filepath.Join(c17Base, f)
 		check(os.MkdirAll(filepath.Dir(p), 0755))
@@ -137,9 +225,24 @@ func c17Setup() {
 	check(os.Symlink("nowhere", filepath.Join(c17Base, "top/dlink")))
 	check(os.Symlink("root/sub", filepath.Join(c17Base, "top/lnin")))
 	check(os.Symlink("../abs", filepath.Join(c17Base, "top/lnout")))
+	// is the instrumentation point there? (a tree without it is compared on content only)
+	if verifhook.Enabled {
+		verifhook.SetHandler(func(point string, args ...interface{}) {
+			if point == "c17.open" && len(args) == 1 {
+				c17EvMu.Lock()
+				c17Events = append(c17Events, fmt.Sprint(args[0]))
+				c17EvMu.Unlock()
+			}
+		})
+		(&util.FileImportLocator{Root: filepath.Join(c17Base, "top/root")}).Resolve("nm")
+		c17Hook = len(c17TakeEvents()) > 0
+	}
 }
 
 func c17Subst(s string) string {
+	if strings.HasPrefix(s, "@:") { // the name of B itself
+		return filepath.Base(c17Base) + s[2:]
+	}
 	if strings.HasPrefix(s, "@") {
 		return c17Base + s[1:]
 	}
@@ -150,7 +253,7 @@ func c17Subst(s string) string {
 func c17Classify(content, rootpos string) string {
 	for i, f := range c17Files {
 		if content == "p := \""+f+"\"\n" || content == f {
-			in := rootpos == "" || f == rootpos || strings.HasPrefix(f, rootpos+"/")
+			in := rootpos == "" || strings.HasPrefix(rootpos, "^") || f == rootpos || strings.HasPrefix(f, rootpos+"/")
 			if in {
 				CountRun("opened-inside")
 				return "I" + strconv.Itoa(i)
@@ -162,24 +265,51 @@ func c17Classify(content, rootpos string) string {
 	return "UNKNOWN-CONTENT:" + hx(content)
 }
 
-func c17Resolve(root, path, rootpos string) string {
-	il := &util.FileImportLocator{Root: root}
+func c17Resolve(il *util.FileImportLocator, path, rootpos string) string {
+	c17TakeEvents()
 	res, err := il.Resolve(path)
 	if err != nil {
 		CountRun("error")
-		return "E"
+		ev := c17TakeEvents()
+		if res != "" {
+			return c17ObsEv(ev, true, "E+") // content handed back together with an error
+		}
+		if len(ev) == 0 && c17Hook {
+			// no open: the error of filepath.Rel handed through, or the locator's own rejection
+			if _, rerr := filepath.Rel(il.Root, filepath.Clean(filepath.Join(il.Root, path))); rerr != nil && strings.Contains(err.Error(), rerr.Error()) {
+				return c17ObsEv(ev, true, "relerr")
+			}
+			return c17ObsEv(ev, true, "rej")
+		}
+		return c17ObsEv(ev, true, "E")
 	}
-	return c17Classify(res, rootpos)
+	return c17Obs(true, c17Classify(res, rootpos))
 }
 
 func c17Import(root, path, rootpos string) string {
-	return c17ImportNamed("t", root, path, rootpos)
+	return c17ImportNamed("t", &util.FileImportLocator{Root: root}, path, rootpos)
 }
 
-// c17ImportNamed evaluates the import statement in a program parsed under the source name srcname.
-func c17ImportNamed(srcname, root, path, rootpos string) string {
-	erp := interpreter.NewECALRuntimeProvider("t", &util.FileImportLocator{Root: root}, &memLog{})
+// c17ImportNamed evaluates the import statement in a program parsed under the source name srcname
+// (il == nil: the provider's default locator).
+func c17ImportNamed(srcname string, il *util.FileImportLocator, path, rootpos string) string {
+	c17TakeEvents()
+	return c17Obs(true, c17ImportResult(srcname, il, path, rootpos))
+}
+
+func c17ImportResult(srcname string, il *util.FileImportLocator, path, rootpos string) string {
+	var erp *interpreter.ECALRuntimeProvider
+	if il == nil {
+		erp = interpreter.NewECALRuntimeProvider("t", nil, &memLog{})
+	} else {
+		erp = interpreter.NewECALRuntimeProvider("t", il, &memLog{})
+	}
 	src := "import \"" + path + "\" as x\n"
+	vs := newGlobalScope()
+	if !c17PlainLiteral(path) { // hand the bytes over as a value: the path expression is an interpolation
+		src = "import \"{{c17p}}\" as x\n"
+		vs.SetValue("c17p", path)
+	}
 	ast, err := parser.ParseWithRuntime(srcname, src, erp)
 	if err != nil {
 		return "PARSE-ERROR " + oneLine(err.Error())
@@ -187,7 +317,6 @@ func c17ImportNamed(srcname, root, path, rootpos string) string {
 	if err = ast.Runtime.Validate(); err != nil {
 		return "VALIDATE-ERROR " + oneLine(err.Error())
 	}
-	vs := newGlobalScope()
 	if _, err = ast.Runtime.Eval(vs, make(map[string]interface{}), erp.NewThreadID()); err != nil {
 		CountRun("import-error")
 		return "E"
@@ -205,11 +334,26 @@ func c17ImportNamed(srcname, root, path, rootpos string) string {
 
 // c17Tool drives the real command line interpreter: the configured directory goes through
 // CLIInterpreter.CreateRuntimeProvider, the import statement through an entry file and LoadInitialFile.
-func c17Tool(tin *tool.CLIInterpreter, path, rootpos string) string {
+func c17Tool(tin *tool.CLIInterpreter, path, rootpos string, withEvents bool) string {
+	c17TakeEvents()
+	return c17Obs(withEvents, c17ToolResult(tin, path, rootpos))
+}
+
+func c17EntryFile(path string) string {
 	entry := filepath.Join(c17Base, "t_entry.ecal")
+	if !c17PlainLiteral(path) {
+		path = "?" // T / U lines only carry plain paths
+	}
 	check(os.WriteFile(entry, []byte("import \""+path+"\" as x\n"), 0644))
-	tin.EntryFile = entry
+	return entry
+}
+
+func c17ToolResult(tin *tool.CLIInterpreter, path, rootpos string) string {
+	if tin.EntryFile == "" {
+		tin.EntryFile = c17EntryFile(path)
+	}
 	err := tin.LoadInitialFile(tin.RuntimeProvider.NewThreadID())
+	tin.EntryFile = ""
 	tin.RuntimeProvider.Processor.Finish()
 	if err != nil {
 		CountRun("tool-import-error")
@@ -226,6 +370,28 @@ func c17Tool(tin *tool.CLIInterpreter, path, rootpos string) string {
 	return c17Classify(fmt.Sprint(m["p"]), rootpos)
 }
 
+// c17NewToolArgs configures the interpreter the way the command line does: ParseArgs over
+// `ecal run [-dir <dir>] -loglevel Error <entry file>`, then CreateRuntimeProvider.
+func c17NewToolArgs(dir string, hasDir bool, entry string) (*tool.CLIInterpreter, string) {
+	args := []string{"ecal", "run"}
+	if hasDir {
+		args = append(args, "-dir", dir)
+	}
+	args = append(args, "-loglevel", "Error", entry)
+	old := tool.VerifSetOsArgs(args)
+	defer tool.VerifSetOsArgs(old)
+	flag.CommandLine = flag.NewFlagSet("ecal", flag.ContinueOnError)
+	flag.CommandLine.SetOutput(io.Discard)
+	tin := tool.NewCLIInterpreter()
+	if tin.ParseArgs() {
+		return nil, "PARSEARGS-EXIT"
+	}
+	if err := tin.CreateRuntimeProvider("c17"); err != nil {
+		return nil, "CREATE-ERROR " + oneLine(err.Error())
+	}
+	return tin, ""
+}
+
 func c17NewTool(dir string) (*tool.CLIInterpreter, string) {
 	tin := tool.NewCLIInterpreter()
 	lf, ll := "", "Error"
@@ -234,6 +400,16 @@ func c17NewTool(dir string) (*tool.CLIInterpreter, string) {
 		return nil, "CREATE-ERROR " + oneLine(err.Error())
 	}
 	return tin, ""
+}
+
+func c17PlainLiteral(path string) bool {
+	for i := 0; i < len(path); i++ {
+		c := path[i]
+		if !(c >= 'a' && c <= 'z' || c >= 'A' && c <= 'Z' || c >= '0' && c <= '9' || strings.IndexByte(" ._/-@:", c) >= 0) {
+			return false
+		}
+	}
+	return true
 }
 
 func c17Ext(alpha []string, depth int) [][]string {
@@ -251,7 +427,9 @@ func c17Ext(alpha []string, depth int) [][]string {
 }
 
 func c17Run(payload string) string {
+	c17Short = false
 	f := strings.Split(payload, " ")
+	f[0] = strings.ToUpper(f[0]) // a lower case kind: generated on a tree without the instrumentation point
 	if f[0] == "P" && len(f) == 3 {
 		a, b := unhx(f[1]), unhx(f[2])
 		rel, err := filepath.Rel(a, b)
@@ -263,18 +441,28 @@ func c17Run(payload string) string {
 	}
 	if f[0] == "J" && len(f) == 7 {
 		check(os.Chdir(filepath.Join(c17Base, unhx(f[1]))))
-		return c17ImportNamed(c17Subst(unhx(f[5])), c17Subst(unhx(f[3])), unhx(f[6]), unhx(f[4]))
+		return c17ImportNamed(c17Subst(unhx(f[5])), &util.FileImportLocator{Root: c17Subst(unhx(f[3]))}, unhx(f[6]), unhx(f[4]))
 	}
 	var tin *tool.CLIInterpreter
-	if f[0] == "T" && len(f) == 9 {
+	withEvents := true
+	viaArgs, hasDir, dir := false, false, ""
+	if (f[0] == "T" || f[0] == "U") && len(f) == 9 {
 		check(os.Chdir(filepath.Join(c17Base, unhx(f[1]))))
-		var msg string
-		if tin, msg = c17NewTool(c17Subst(unhx(f[3]))); tin == nil {
-			return msg
+		withEvents = f[3] == f[4] || f[3] == "~" // a symlinked root is modelled as its target: the opened strings differ
+		if f[0] == "U" {
+			viaArgs, hasDir = true, f[3] != "~"
+			if hasDir {
+				dir = c17Subst(unhx(f[3]))
+			}
+		} else {
+			var msg string
+			if tin, msg = c17NewTool(c17Subst(unhx(f[3]))); tin == nil {
+				return msg
+			}
 		}
-		f = append(f[:4], f[5:]...) // drop <modelroot>: from here on the layout of R
+		f = append(append([]string{}, f[:3]...), f[4:]...) // drop <dir>: from here on the layout of R
 	}
-	if len(f) != 8 || (f[0] != "R" && f[0] != "I" && f[0] != "T") {
+	if len(f) != 8 || !strings.Contains("R I T U N", f[0]) {
 		return "bad-payload"
 	}
 	cwd, root, rootpos := unhx(f[1]), c17Subst(unhx(f[3])), unhx(f[4])
@@ -284,6 +472,8 @@ func c17Run(payload string) string {
 		alpha = strings.Split(a, ",")
 	}
 	check(os.Chdir(filepath.Join(c17Base, cwd)))
+	il := &util.FileImportLocator{Root: root} // one locator for all paths of the line
+	c17Short = depth > 0
 	var out []string
 	for _, ext := range c17Ext(alpha, depth) {
 		var path string
@@ -295,37 +485,58 @@ func c17Run(payload string) string {
 				path += "/" + e
 			}
 		}
-		if f[0] == "R" {
-			out = append(out, c17Resolve(root, path, rootpos))
-		} else if f[0] == "T" {
-			out = append(out, c17Tool(tin, path, rootpos))
-		} else {
+		switch f[0] {
+		case "R":
+			out = append(out, c17Resolve(il, path, rootpos))
+		case "T":
+			out = append(out, c17Tool(tin, path, rootpos, withEvents))
+		case "U":
+			t, msg := c17NewToolArgs(dir, hasDir, c17EntryFile(path))
+			if t == nil {
+				out = append(out, msg)
+			} else {
+				out = append(out, c17Tool(t, path, rootpos, withEvents))
+			}
+		case "N":
+			out = append(out, c17ImportNamed("t", nil, path, rootpos))
+		default:
 			out = append(out, c17Import(root, path, rootpos))
 		}
 	}
+	_ = viaArgs
 	return strings.Join(out, ",")
 }
 
 func init() {
 	files := hx(strings.Join(c17Files, ","))
 	alpha := hx(strings.Join(c17Alphabet, ","))
-	rcase := func(kind string, r c17Root, pre string, hasPre bool, depth int) string {
+	alphaX := hx(strings.Join(append(append([]string{}, c17Alphabet...), c17Tricks...), ","))
+	// kind letter: lower case when the tree under test has no c17.open point (the model then prints no opened paths)
+	k := func(kind string) string {
+		if !c17Hook {
+			return strings.ToLower(kind)
+		}
+		return kind
+	}
+	rcaseA := func(kind string, r c17Root, pre string, hasPre bool, depth int, a string) string {
 		p := "~"
 		if hasPre {
 			p = hx(pre)
 		}
-		a := alpha
 		if depth == 0 {
 			a = "-"
 		}
-		return strings.Join([]string{kind, hx(r.cwd), files, hx(r.root), hx(r.pos), p, strconv.Itoa(depth), a}, " ")
+		return strings.Join([]string{k(kind), hx(r.cwd), files, hx(r.root), hx(r.pos), p, strconv.Itoa(depth), a}, " ")
+	}
+	rcase := func(kind string, r c17Root, pre string, hasPre bool, depth int) string {
+		return rcaseA(kind, r, pre, hasPre, depth, alpha)
 	}
 	register("C17", &Prop{
 		Timeout:          20 * time.Second,
 		NoRestartOnPanic: true,
 		Setup:            c17Setup,
 		Gen: func(g *Gen) {
-			maxLen, nRandom, pLen, impLen, nRoots := 5, 4000, 3, 3, 1000
+			maxLen, nRandom, pLen, impLen, nRoots := 5, 4000, 4, 3, 1000
 			if g.Thorough() {
 				maxLen, nRandom, pLen, impLen, nRoots = 6, 100000, 4, 4, 5000
 			}
@@ -343,6 +554,13 @@ func init() {
 				{rel, "a.b//nm/"}, {rel, "sub/./root/../nm"}, {rel, "..x"}, {rel, "...//nm"}, {rel, "nm\x00"}, {rel, "\xff\xfe/../nm"},
 				{rel, strings.Repeat("../", 40) + "nm"}, {rel, strings.Repeat("sub/../", 40) + "nm"}, {rel, "root/../../root/nm"},
 				{c17Roots[6], "../nm"}, {c17Roots[6], "root/nm"}, {c17Roots[14], "abs/nm"}, {c17Roots[14], "../nm"},
+				// rewrites after the test would turn these into escapes (each has a sentinel where it would land)
+				{rel, "$u../nm"}, {rel, "${u}../nm"}, {rel, "%2e%2e/nm"}, {rel, "..%2fnm"}, {rel, "%2e%2e%2fnm"}, {rel, "~/nm"}, {rel, "~"},
+				{rel, "..\\nm"}, {rel, "..\\/nm"}, {rel, ".../nm"}, {rel, ".. /nm"}, {rel, " ../nm"}, {rel, "..\x00/nm"}, {rel, "../nm\x00"},
+				{rel, "$HOME/nm"}, {rel, "${HOME}/nm"}, {rel, "sub/$u../$u../nm"}, {rel, "%2e%2e/rootX/nm"}, {rel, "\t../nm"}, {rel, "..\n/nm"},
+				{top, "$u../nm"}, {top, "~/nm"}, {top, "%2e%2e/nm"}, {top, ".. /nm"}, {top, "..\\/nm"},
+				{c17Root{"top", "/", "^/"}, "@/top/nm"}, {c17Root{"top", "/", "^/"}, "../@/top/nm"}, {c17Root{"top", "@/..", "^1"}, "@:/top/nm"},
+				{c17Root{"top", "@/..", "^1"}, "../@:/top/nm"}, {c17Root{"top", "../../..", "^2"}, "../nm"},
 			} {
 				g.Count("directed")
 				g.Emit(rcase("R", d.r, d.p, true, 0))
@@ -371,7 +589,15 @@ func init() {
 				if depth == 0 {
 					a = "-"
 				}
-				return strings.Join([]string{"T", hx(cwd), files, hx(dir), hx(modelroot), hx(pos), p, strconv.Itoa(depth), a}, " ")
+				return strings.Join([]string{k("T"), hx(cwd), files, hx(dir), hx(modelroot), hx(pos), p, strconv.Itoa(depth), a}, " ")
+			}
+			// the same through the command line: ParseArgs over `ecal run [-dir <dir>] -loglevel Error <entry>`
+			ucase := func(cwd, dir string, hasDir bool, modelroot, pos, path string) string {
+				d := "~"
+				if hasDir {
+					d = hx(dir)
+				}
+				return strings.Join([]string{k("U"), hx(cwd), files, d, hx(modelroot), hx(pos), hx(path), "0", "-"}, " ")
 			}
 			type troot struct{ cwd, dir, model, pos, what string }
 			troots := []troot{
@@ -392,6 +618,27 @@ func init() {
 				{"top", "", "", "top", "empty"},
 				{"top", ".", ".", "top", "dot"},
 				{"top/root", ".", ".", "top/root", "dot"},
+			}
+			upaths := []string{"nm", "../nm", "root/nm", "./nm", "@/top/nm", "../top/nm", "sub/nm", "private"}
+			for _, p := range upaths {
+				for _, cwd := range []string{"top", "top/root"} {
+					g.Count("tool via ParseArgs, no -dir (default: working directory)")
+					g.Emit(ucase(cwd, "", false, "@/"+cwd, cwd, p))
+				}
+				for _, r := range [][3]string{{"root", "root", "top/root"}, {"@/top/root", "@/top/root", "top/root"}, {"missing", "missing", "top/missing"},
+					{"dlink", "dlink", "top/dlink"}, {"", "", "top"}, {".", ".", "top"}, {"r t", "r t", "top/r t"}} {
+					g.Count("tool via ParseArgs, -dir")
+					g.Emit(ucase("top", r[0], true, r[1], r[2], p))
+				}
+			}
+			// the provider's default locator (no locator given): rooted at the directory of the executable
+			if filepath.Dir(os.Args[0]) == c17Par1 {
+				for _, p := range []string{"@:/top/nm", "../@:/top/nm", "nm", "@:/../@:/top/root/nm", "../nm"} {
+					g.Count("import with the default locator")
+					g.Emit(rcase("N", c17Root{"top", "@/..", "^1"}, p, true, 0))
+				}
+			} else {
+				g.Count("default locator not run (executable not next to the tree)")
 			}
 			tpaths := []string{"nm", "./nm", "../nm", "root/nm", "../top/nm", "@/top/nm", "@/nm", "sub/nm", "../root/nm", "private", "a.b/nm", "/nm", "../../nm", "rootX/nm", "../rootX/nm"}
 			for _, r := range troots {
@@ -433,7 +680,7 @@ func init() {
 				for _, sn := range srcnames {
 					for _, ip := range ipaths {
 						g.Count("import under a source name")
-						g.Emit(strings.Join([]string{"J", hx(r.cwd), filesM, hx(r.root), hx(r.pos), hx(sn), hx(ip)}, " "))
+						g.Emit(strings.Join([]string{k("J"), hx(r.cwd), filesM, hx(r.root), hx(r.pos), hx(sn), hx(ip)}, " "))
 					}
 				}
 			}
@@ -460,7 +707,8 @@ func init() {
 					g.Emit("P " + hx(a) + " " + hx(b))
 				}
 			}
-			bytesAlpha := []string{"/", "/", "/", ".", ".", "..", "a", "b", "a", " ", "\x00", "\xff", "\\", "é", "..x", "./", "/.", "//", "/../"}
+			bytesAlpha := []string{"/", "/", "/", ".", ".", "..", "a", "b", "a", " ", "\x00", "\xff", "\\", "é", "..x", "./", "/.", "//", "/../",
+				"$u", "${u}", "%2e", "%2f", "~", "...", "\t"}
 			rstr := func(n int) string {
 				var sb strings.Builder
 				for k := g.R.Intn(n + 1); k > 0; k-- {
@@ -482,8 +730,12 @@ func init() {
 				g.Emit("P " + hx(a) + " " + hx(b))
 			}
 			// (b) Resolve: every element sequence of length <= maxLen for every root spelling
-			for _, r := range c17Roots {
-				for L := 0; L <= maxLen && L <= 2; L++ {
+			for ri, r := range c17Roots {
+				ml := maxLen
+				if ri >= 18 && ml > 5 { // odd-named and above-tree roots: length 5 in both tiers
+					ml = 5
+				}
+				for L := 0; L <= ml && L <= 2; L++ {
 					g.Count("resolve exhaustive lines")
 					g.Emit(rcase("R", r, "", false, L))
 				}
@@ -493,7 +745,7 @@ func init() {
 						g.Count("resolve exhaustive lines")
 						g.Emit(rcase("R", r, strings.Join(cur, "/"), true, 2))
 					}
-					if len(cur) == maxLen-2 {
+					if len(cur) == ml-2 {
 						return
 					}
 					for _, a := range c17Alphabet {
@@ -502,9 +754,38 @@ func init() {
 				}
 				pre(nil)
 			}
+			// the extended alphabet (tricks that a rewrite after the test would turn into escapes): <= 3 elements, every root
+			for _, r := range c17Roots {
+				for L := 1; L <= 2; L++ {
+					g.Count("resolve extended-alphabet lines")
+					g.Emit(rcaseA("R", r, "", false, L, alphaX))
+				}
+				for _, a := range append(append([]string{}, c17Alphabet...), c17Tricks...) {
+					g.Count("resolve extended-alphabet lines")
+					g.Emit(rcaseA("R", r, a, true, 2, alphaX))
+				}
+			}
+			// quick tier: length 6 for one root, rotated with the seed (the thorough tier has it for all)
+			if !g.Thorough() {
+				for j := 0; j < 1; j++ {
+					r := c17Roots[int((g.Seed+uint64(j))%uint64(len(c17Roots)))]
+					var pre6 func(cur []string)
+					pre6 = func(cur []string) {
+						if len(cur) == 4 {
+							g.Count("resolve length-6 lines (seed-rotated roots)")
+							g.Emit(rcase("R", r, strings.Join(cur, "/"), true, 2))
+							return
+						}
+						for _, a := range c17Alphabet {
+							pre6(append(append([]string{}, cur...), a))
+						}
+					}
+					pre6(nil)
+				}
+			}
 			// random root spellings; the position each denotes is asked from the kernel (chdir + getcwd),
 			// not computed with path/filepath; every path of <= 3 elements for each
-			rootAlpha := []string{"root", "sub", "..", ".", "", "rootX", "a.b", "top", "root", ".."}
+			rootAlpha := []string{"root", "sub", "..", ".", "", "rootX", "a.b", "top", "root", "..", "r t", "r.t", "..r", " r"}
 			cwds := []string{"top", "top/root", "top/root/sub", ""}
 			for i := 0; i < nRoots; i++ {
 				cwd := g.R.Pick(cwds)
@@ -521,11 +802,21 @@ func init() {
 					continue
 				}
 				wd, err := os.Getwd()
-				if err != nil || (wd != c17Base && !strings.HasPrefix(wd, c17Base+"/")) {
-					g.Count("random root: above the tree (skipped)")
+				pos := strings.TrimPrefix(strings.TrimPrefix(wd, c17Base), "/")
+				switch {
+				case err != nil:
+					continue
+				case wd == c17Par1:
+					pos = "^1"
+					g.Count("random root: parent of the tree")
+				case wd == c17Par2:
+					pos = "^2"
+					g.Count("random root: grandparent of the tree")
+				case wd != c17Base && !strings.HasPrefix(wd, c17Base+"/"):
+					g.Count("random root: more than two levels above the tree (skipped)")
 					continue
 				}
-				r := c17Root{cwd, root, strings.TrimPrefix(strings.TrimPrefix(wd, c17Base), "/")}
+				r := c17Root{cwd, root, pos}
 				for L := 0; L <= 2; L++ {
 					g.Count("resolve random-root lines")
 					g.Emit(rcase("R", r, "", false, L))
@@ -541,9 +832,12 @@ func init() {
 				n := maxLen + 1 + g.R.Intn(8)
 				var segs []string
 				for k := 0; k < n; k++ {
-					if g.R.Intn(8) == 0 {
+					switch g.R.Intn(8) {
+					case 0:
 						segs = append(segs, rstr(3))
-					} else {
+					case 1:
+						segs = append(segs, g.R.Pick(c17Tricks))
+					default:
 						segs = append(segs, g.R.Pick(c17Alphabet))
 					}
 				}
@@ -571,10 +865,22 @@ func init() {
 				n := impLen + 1 + g.R.Intn(6)
 				var segs []string
 				for k := 0; k < n; k++ {
-					segs = append(segs, g.R.Pick(c17Alphabet))
+					if g.R.Intn(6) == 0 {
+						segs = append(segs, g.R.Pick(c17Tricks)) // handed over as an interpolated value
+					} else {
+						segs = append(segs, g.R.Pick(c17Alphabet))
+					}
 				}
 				g.Count("import random")
 				g.Emit(rcase("I", r, strings.Join(segs, "/"), true, 0))
+			}
+			// import paths a plain literal does not carry: absolute ones, tricks, quotes, braces, escapes
+			for _, r := range []c17Root{c17Roots[0], c17Roots[1], c17Roots[13]} {
+				for _, p := range []string{"@/top/nm", "@/top/root/nm", "@/abs/nm", "$u../nm", "~/nm", "%2e%2e/nm", "..\\/nm", ".. /nm",
+					"\"/../nm", "{{1}}/../nm", "\\n/../nm", "nm\x00", "a\"b", "'/nm"} {
+					g.Count("import directed (non-literal)")
+					g.Emit(rcase("I", r, p, true, 0))
+				}
 			}
 		},
 		Run:  c17Run,
